@@ -26,6 +26,8 @@ SqNull ::= SEQUENCE OF NULL
 SqNullC ::= SEQUENCE (SIZE(0..65535)) OF NULL
 SqBool ::= SEQUENCE OF BOOLEAN
 SqEmpty ::= SEQUENCE OF SEQUENCE {}
+SqInt3 ::= SEQUENCE OF INTEGER (0..7)
+SqEnum8 ::= SEQUENCE OF ENUMERATED { e0, e1, e2, e3, e4, e5, e6, e7 }
 Os ::= OCTET STRING
 Bs ::= BIT STRING
 Ia5 ::= IA5String
@@ -197,6 +199,14 @@ def bomb_cases(ctx):
     c("SqBool", "uper", "frag-16K-valid", b"\xc1" + b"\xaa" * 2048 + b"\x00", ("ok",), "benign")
     c("SqBool", "uper", "frag-16K-twice-then-starved", b"\xc1" + b"\x55" * 2048 + b"\xc1" + b"\x55" * 100)
     c("SqBool", "uper", "len-16383-nodata", b"\xbf\xff")
+    # elements of 3 bits whose decoder reports rv.consumed = 0 (INTEGER_decode_uper): more than 200 of them are not a
+    # zero-width bomb (former F47 witness: 201 elements; the guard compares pd->moved)
+    c("SqInt3", "uper", "valid-201", b"\x80\xc9" + b"\xb6" * 76, ("ok",), "benign")
+    c("SqInt3", "uper", "valid-16383", b"\xbf\xff" + b"\x92" * 6144, ("ok",), "benign")
+    c("SqInt3", "uper", "frag-64K-nodata", b"\xc4")
+    c("SqEnum8", "uper", "valid-201", b"\x80\xc9" + b"\xb6" * 76, ("ok",), "benign")
+    c("SqEnum8", "uper", "valid-300", b"\x81\x2c" + b"\x49\x24\x92" * 37 + b"\x49\x00", ("ok",), "benign")
+    c("SqInt3", "uper", "len-16383-nodata", b"\xbf\xff")
     for t, bpc in (("Os", 1), ("Ia5", 1), ("Bmp", 2), ("Bs", 1)):
         for k in (1, 4):
             c(t, "uper", f"frag-{k}x16K-nodata", bytes([0xc0 + k]))
@@ -283,6 +293,7 @@ def bounds(ssz):
         setb(t, "uper", 0, ZW * A + 32); setb(t, "oer", 0, ZW * (A + (PD if t == "SqEmpty" else 0)) + 32)
     A = 4 + P
     setb("SqBool", "ber", K(A, 24), 0); setb("SqBool", "uper", K(A, 1), 0); setb("SqBool", "oer", K(A, 8), 0); setb("SqBool", "xer", K(A, 56), 0)
+    setb("SqInt3", "uper", K(8 + P, 3), 0); setb("SqEnum8", "uper", K(8 + P, 3), 0)
     # strings: BER buffer doubles (2n+16) and every constructed level costs a 48-byte _stack_el per 2 octets;
     # UPER: one fragment (<= 64K characters of bpc bytes) may be allocated ahead of its data; OER: exact
     for t, bpc, u in (("Os", 1, 8), ("Bs", 1, 1), ("Ia5", 1, 7), ("Bmp", 2, 16)):
@@ -394,7 +405,7 @@ def k_ledger(ctx, exe, workdir, ssz, cases):
             jobs.append((Case(t, "oer", "k", b, set(), None, 0, "k"), f"c15osoer {ssz[t]} {ct} {unit} {hx(b)}"))
     # SET_OF_decode_uper / _oer with fixed-width elements
     for t, esz, w, rep0, eb in (("SoNull", 4, 0, 1, "-"), ("SqNull", 4, 0, 1, "-"), ("SqNullC", 4, 0, 1, "16"), ("SqBool", 4, 1, 0, "-"),
-                                ("SqEmpty", 24, 0, 1, "-")):
+                                ("SqEmpty", 24, 0, 1, "-"), ("SqEnum8", 8, 3, 1, "-")):    # SqEnum8: 3-bit elements whose decoder reports rv.consumed = 0
         for b in inputs(t, "uper", [b"\x00", b"\x01", b"\x03\xa0", b"\x80\x05\xff"]):
             jobs.append((Case(t, "uper", "k", b, set(), None, 0, "k"), f"c15setofuper {ssz[t]} {esz} {w} {rep0} {eb} 0 {hx(b)}"))
     for t, esz, w, rep0 in (("SoNull", 4, 0, 1), ("SqNull", 4, 0, 1), ("SqBool", 4, 1, 0)):
